@@ -1,10 +1,23 @@
 #!/bin/bash
-# usage: try_mutant.sh <patch.diff> <prop> [prop...]   applies to /repo, runs quick checks, reverts
+# usage: try_mutant.sh <patch.diff> <prop> [prop...]
+# Runs the quick check of each property against a scratch worktree of /repo (HEAD) with the
+# patch applied. /repo itself is not touched (background runs build from it), so the
+# simulator is built a second time under /tmp/mutsim against /tmp/wt/mut.
 set -u
-patch="$1"; shift
-git -C /repo apply "$patch" || { echo "patch does not apply"; exit 2; }
+patch="$(realpath "$1")"; shift
+WT=/tmp/wt/mut
+SIM=/tmp/mutsim
+export CARGO_NET_OFFLINE=true
+mkdir -p /tmp/wt
+if [ ! -d "$WT" ]; then git -C /repo worktree add -f --detach "$WT" HEAD -q || exit 2; fi
+git -C "$WT" checkout -q --detach "$(git -C /repo rev-parse HEAD)" && git -C "$WT" reset -q --hard && git -C "$WT" clean -qfd
+git -C "$WT" apply "$patch" || { echo "patch does not apply"; exit 2; }
+mkdir -p "$SIM"
+rsync -a --delete --exclude target /verif/sim/ "$SIM"/
+sed -i "s#/repo/rumqtt#$WT/rumqtt#" "$SIM/Cargo.toml"
+( cd "$SIM" && cargo build --release --offline 2>&1 | grep -E "^error" -A6 | head -20 )
 for p in "$@"; do
-  VERIF_REPLAY_DIR=/tmp/mut_replays VERIF_EVIDENCE_DIR=/tmp/mut_ev /verif/check "$p" quick > /tmp/mut_out_$p.txt 2>&1
+  ( cd "$SIM" && VERIF_REPLAY_DIR=/tmp/mut_replays VERIF_EVIDENCE_DIR=/tmp/mut_ev timeout 900 ./target/release/verifsim run "$p" quick > /tmp/mut_out_$p.txt 2>&1 )
   echo "$p exit=$? $(grep -E '^violation|^VIOLATION' /tmp/mut_out_$p.txt | head -2 | cut -c1-260)"
 done
-git -C /repo checkout -- .
+git -C "$WT" reset -q --hard
